@@ -1,0 +1,15 @@
+//go:build verif
+
+// Verification hooks for package packets (build tag "verif"): read-only exported
+// wrappers around unexported codec helpers. Compiled only with -tags verif.
+
+package packets
+
+import "bytes"
+
+// VerifEncodeLength exposes encodeLength.
+func VerifEncodeLength(n int64) []byte {
+	b := new(bytes.Buffer)
+	encodeLength(b, n)
+	return b.Bytes()
+}
